@@ -29,6 +29,23 @@ def build(env, per_cell, with_par=True):
     g = gen.G(env.rnd)
     rnd = env.rnd
     cw = cl.CaseW()
+    # the very first session makes every kind of FAILING call once (small-order keys, invalid keys, bad tags,
+    # too-long exports): whatever a failure leaves behind in the process has to be harmless for all later sessions
+    from ref import curves as _curves
+    for kem in gen.KEMS:
+        s = cw.session(kem, 1, 1, sid="n%d" % len(cw.sessions))
+        gen.add_keys(s, g, kem, "kR")
+        gen.add_keys(s, g, kem, "kS")
+        bad = _curves.X25519_SMALL_ORDER[0].hex() if kem == 0x0020 else "$kR.pk^flip:9"
+        for mode in gen.MODES:
+            pa = dict(psk="aa", pskid="bb") if mode in (1, 3) else {}
+            s.call("setup_r", mode=mode, skr="$kR.sk", enc=bad, info="-", out="F", pks="$kS.pk" if mode in (2, 3) else None, **pa)
+            s.call("setup_s", mode=mode, pkr=bad, info="-", rng=g.rbytes(gen.nsk(kem)), out="F2",
+                   sks="$kS.sk" if mode in (2, 3) else None, pks="$kS.pk" if mode in (2, 3) else None, **pa)
+        s.call("decap", skr="$kR.sk", enc=bad)
+        s.call("encap", pkr=bad, rng=g.rbytes(gen.nsk(kem)))
+        if kem == 0x0020:
+            s.call("decap", skr="$kR.sk", enc="$kR.pk", pks=bad)
     for (kem, kdf, aead) in gen.suites(sealing_only=False):
         for mode in gen.MODES:
             for j in range(per_cell):
@@ -64,6 +81,17 @@ def build(env, per_cell, with_par=True):
                     s.call("setup_s_par", pkr="$kR.pk", info="-", rng=g.rbytes(gen.nsk(kem)), threads=rnd.choice([4, 8]),
                            sks="$kS.sk" if mode in (2, 3) else None, pks="$kS.pk" if mode in (2, 3) else None, **m2)
                 s.call("gen_keypair", rng=g.rbytes(gen.nsk(kem)))
+    return cw
+
+
+def build_storm(env, scale):
+    """many threads, each with its own recipient key of the same KEM, decapsulating at once"""
+    g = gen.G(env.rnd)
+    cw = cl.CaseW()
+    for kem in gen.KEMS:
+        s = cw.session(kem, 1, 1, sid="st%04x" % kem)
+        reps = {0x0020: 40000, 0x0010: 6000, 0x0011: 1000, 0x0012: 500}[kem] * scale
+        s.call("decap_storm", ikm=g.rbytes(16), threads=16, reps=reps)
     return cw
 
 
@@ -119,6 +147,13 @@ def build_history_probes(env, reps):
                     a2 = dict(sa, pskid=pskid)
                     s.call("setup_s", mode=mode, pkr="$kR.pk", info="-", rng=rng, out="K%d" % i, rep="k%s" % [pid, pid + "00", pid[:-2] + "01"].index(pskid), **a2)
                     s.call("export", ctx="K%d" % i, exctx="-", len=32, rep="ke%s" % [pid, pid + "00", pid[:-2] + "01"].index(pskid))
+            # the receiver's key objects parsed once and reused for setups that expect different senders
+            gen.add_keys(s, g, kem, "kI")
+            s.call("setup_s", mode=2, pkr="$kR.pk", info="-", rng=rng, out="AU", sks="$kS.sk", pks="$kS.pk")
+            s.call("setup_r_reuse", mode=2, skr="$kR.sk", enc="$AU.enc", info="-", pks="$kS.pk", pks2="$kI.pk", pks3="$kS.pk", pks4="$kR.pk", reuse=1)
+            for i, pk in enumerate(("$kS.pk", "$kI.pk", "$kS.pk", "$kR.pk")):
+                s.call("setup_r", mode=2, skr="$kR.sk", enc="$AU.enc", info="-", pks=pk, out="FR%d" % i)
+                s.call("export", ctx="FR%d" % i, exctx="7265757365", len=32, fresh=i)
             # exporter contexts sharing long prefixes, on one context
             for ex in (prefix, prefix + "00", prefix, prefix[:-2] + "ff", prefix):
                 s.call("export", ctx="P0", exctx=ex, len=48, rep="x%s" % [prefix, prefix + "00", prefix[:-2] + "ff"].index(ex))
@@ -129,6 +164,21 @@ def check_repeats(env, res, label):
     """within one execution: calls with identical arguments (same rep group) must agree"""
     bad = 0
     for s in res.sessions:
+        # reused key objects vs freshly parsed ones
+        reuse = [o for o in s.ops if o.op == "setup_r_reuse" and o.ok()]
+        fresh = {o.args["fresh"]: o for o in s.ops if o.op == "export" and "fresh" in o.args}
+        for o in reuse:
+            for i in range(4):
+                f = fresh.get(str(i))
+                if f is None or "v%d" % i not in o.ret:
+                    continue
+                env.count("evaluations", 1)
+                want = f.ret.get("out") if f.ok() else "err:" + (f.err() or "?")
+                if o.ret["v%d" % i] != want:
+                    env.violation("C18:reused_key_objects_differ", "setup_receiver #%d on key objects that were parsed once and reused gives %s, the same call on freshly parsed objects gives %s (%s)" % (
+                        i, o.ret["v%d" % i][:40], str(want)[:40], label), case_text=s.case_text(o.id), workload="history")
+                    bad += 1
+                    break
         groups = {}
         for op in s.ops:
             if "rep" in op.args and op.ret is not None:
@@ -216,6 +266,12 @@ def check_par(env, res):
                         op.ret.get("threads"), op.ret.get("mism"), op.ret.get("calls")), case_text=s.case_text(op.id), workload="placement")
                 env.count("shared_export_threads", int(op.ret.get("threads", 0)))
                 env.count("shared_export_calls", int(op.ret.get("calls", 0)))
+            elif op.op == "decap_storm":
+                env.count("evaluations", 1)
+                env.count("storm_decapsulations", int(op.ret.get("calls", 0)))
+                if op.ret.get("mism") != "0":
+                    env.violation("C18:concurrent_decap_diverges", "%s of %s decapsulations made concurrently by %s threads with distinct recipient keys differ from the same call made sequentially" % (
+                        op.ret.get("mism"), op.ret.get("calls"), op.ret.get("threads")), case_text=s.case_text(op.id), workload="placement")
             elif op.op in ("setup_r_par", "setup_s_par"):
                 env.count("evaluations", 1)
                 env.count("shared_key_setups", int(op.ret.get("threads", 0)))
@@ -223,6 +279,31 @@ def check_par(env, res):
                     env.violation("C18:shared_key_diverges:%s" % op.op, "%s threads running %s concurrently through shared references to freshly deserialized keys produced %s distinct results (the sequential call afterwards gives %s)" % (
                         op.ret.get("threads"), "setup_receiver" if op.op == "setup_r_par" else "setup_sender", op.ret.get("distinct"), str(op.ret.get("value"))[:40]),
                         case_text=s.case_text(op.id), workload="placement")
+
+
+def hang_analysis(env, text, res, build):
+    """The sequential run hit the watchdog.  If the call that never returned DOES return when its session is run
+    alone in a fresh process, the hang depends on what earlier sessions did - a violation of C18 (and only then;
+    anything else stays inconclusive)."""
+    hung = None
+    for s in res.sessions:
+        for o in (s.all_ops or s.ops):
+            if o.ret is None:
+                hung = (s, o)
+    if hung is None:
+        return False
+    s, o = hung
+    alone = env.drive("hang-isolated", s.case_text(o.id), build=build, timeout=300)
+    if alone.timed_out:
+        env.inconclusive.append("call %s never returns even in a fresh process (not history-dependent; reported as inconclusive here)" % o.raw[:80])
+        return True
+    ok = any(x.ret is not None for ss in alone.sessions for x in (ss.all_ops or ss.ops) if x.id == o.id)
+    if ok:
+        env.violation("C18:hangs_after_history:%s" % o.op,
+                      "%s never returned (watchdog) when run after the earlier sessions, but returns at once when its session is run alone in a fresh process: its behaviour depends on earlier library calls (%s build)" % (o.raw[:100], build),
+                      case_text=s.case_text(o.id), workload="placement")
+        return True
+    return False
 
 
 def tsan_reports(text):
@@ -239,10 +320,31 @@ def run(env):
     text = build(env, per).text()
     htext = build_history_probes(env, env.pick(6, 40)).text()
     text += htext
-    base = env.drive("seq", text)
+    base = env.drive("seq", text, timeout=env.pick(900, 3600))
+    if base.timed_out and hang_analysis(env, text, base, "checked"):
+        return
     env.require_complete(base, "seq")
     check_par(env, base)
     check_repeats(env, base, "sequential, alloc build")
+    # the bare no_std configuration (no allocating API): sequential vs threaded vs migrating
+    nbase = env.drive("seq-noalloc", text, build="checked-noalloc", timeout=env.pick(900, 3600))
+    if nbase.timed_out and hang_analysis(env, text, nbase, "checked-noalloc"):
+        return
+    env.require_complete(nbase, "seq-noalloc")
+    check_par(env, nbase)
+    check_repeats(env, nbase, "sequential, no-alloc build")
+    na_placements = {}
+    for sc in ("threads:16", "migrate:16:%d" % (env.seed + 5), "interleave:%d:8" % (env.seed + 5)):
+        r3 = env.drive("placed-noalloc", text, build="checked-noalloc", sched=sc)
+        env.require_complete(r3, "noalloc " + sc)
+        compare(env, "noalloc+" + sc, nbase, r3, na_placements)
+        check_par(env, r3)
+    env.extra_cov["noalloc_build_placements"] = na_placements
+    stext = build_storm(env, env.pick(1, 6)).text()
+    for b in ("checked", "checked-std", "checked-noalloc"):
+        rs = env.drive("storm", stext, build=b)
+        env.require_complete(rs, "storm/" + b)
+        check_par(env, rs)
     # the same under the crate's `std` feature (std-only code paths), sequential + permuted + interleaved
     sbase = env.drive("seq-std", text, build="checked-std")
     env.require_complete(sbase, "seq-std")
